@@ -747,3 +747,75 @@ func init() {
 		}
 	}
 }
+
+const inprocHandlerEOFDriver = `package inprocgrpc
+
+import (
+	"context"
+	"io"
+	"testing"
+
+	"google.golang.org/grpc"
+	"google.golang.org/grpc/codes"
+	"google.golang.org/grpc/status"
+	"google.golang.org/protobuf/types/known/emptypb"
+)
+
+// A streaming handler that returns io.EOF (the classic "return err" after its own
+// RecvMsg reported the end of the requests) has FAILED: over the network the caller
+// sees code Unknown. The caller must not see io.EOF, which means "completed normally".
+func TestZZGovcReplay(t *testing.T) {
+	ch := &Channel{}
+	ch.RegisterService(&grpc.ServiceDesc{
+		ServiceName: "svc",
+		HandlerType: (*interface{})(nil),
+		Streams: []grpc.StreamDesc{
+			{StreamName: "SS", ServerStreams: true, Handler: func(srv interface{}, ss grpc.ServerStream) error {
+				var in emptypb.Empty
+				for {
+					if err := ss.RecvMsg(&in); err != nil {
+						return err // io.EOF at the end of the requests
+					}
+				}
+			}},
+			{StreamName: "CS", ClientStreams: true, Handler: func(srv interface{}, ss grpc.ServerStream) error {
+				if err := ss.SendMsg(&emptypb.Empty{}); err != nil {
+					return err
+				}
+				return io.EOF
+			}},
+		},
+	}, struct{}{})
+	cs, err := ch.NewStream(context.Background(), &grpc.StreamDesc{StreamName: "SS", ServerStreams: true}, "/svc/SS")
+	if err != nil {
+		t.Fatalf("NewStream: %v", err)
+	}
+	cs.SendMsg(&emptypb.Empty{})
+	cs.CloseSend()
+	err = cs.RecvMsg(&emptypb.Empty{})
+	if err == io.EOF || status.Code(err) != codes.Unknown {
+		t.Errorf("GOVC-REPLAY: VIOLATED server-streaming handler returned io.EOF (a failure, code Unknown over the network); the caller's RecvMsg returned %v, which means the call completed successfully", err)
+	}
+	cs, err = ch.NewStream(context.Background(), &grpc.StreamDesc{StreamName: "CS", ClientStreams: true}, "/svc/CS")
+	if err != nil {
+		t.Fatalf("NewStream: %v", err)
+	}
+	cs.CloseSend()
+	err = cs.RecvMsg(&emptypb.Empty{})
+	if err == nil {
+		t.Errorf("GOVC-REPLAY: VIOLATED client-streaming handler sent its response and then returned io.EOF (a failure); the caller's RecvMsg returned nil (success)")
+	}
+}
+`
+
+func init() {
+	replayDrivers["inprocgrpc.(*inProcessClientStream).recvMsgLocked"] = func(cc *checkCtx, rec *obRecord, f *Failure) map[string]interface{} {
+		res := map[string]interface{}{"attempted": false}
+		if !strings.Contains(rec.o.Name, "end_of_stream_is_reported_only_when_the_reply_channel_ended") {
+			res["reason"] = "no replay scenario for this obligation"
+			return res
+		}
+		res["inputs"] = map[string]interface{}{"scenario": "streaming handlers that return io.EOF"}
+		return runDriver(cc, modulePath+"/inprocgrpc", inprocHandlerEOFDriver, res)
+	}
+}
